@@ -602,8 +602,12 @@ def db_experiment(c):
     obs["dE_over_kT"] = (energy_closed_form(c, ys["positions"]) - energy_closed_form(c, xs["positions"])) / kT
     # rejected mass stays at x: the driver's revert gives back x exactly
     if sysname == "gc" and direction == "delete":
-        deleted = ctx._deleted_atoms.copy()
-        deleted_label = int(np.array(x0["labels"])[np.asarray(ctx._deleted_indices)][0])
+        # which atoms the trial removed, from what can be seen from outside: the rows of x that are no longer in y
+        ypos = {tuple(r) for r in np.asarray(ys["positions"]).tolist()}
+        gone = [i for i, r in enumerate(np.asarray(xs["positions"]).tolist()) if tuple(r) not in ypos]
+        deleted = E["Atoms"](numbers=[xs["numbers"][i] for i in gone], positions=np.asarray(xs["positions"])[gone],
+                             cell=cell_of(c), pbc=True)
+        deleted_label = int(np.array(x0["labels"])[gone][0])
     mc.revert_state()
     obs["restored"] = bool(same_state(atoms, xs))
     # the reverse trial y -> x on a second simulation object standing at y
